@@ -29,6 +29,10 @@ CHECKS = {
                 technique="TLA+ BasePathFS spec (Wrappers.tla: virtual-namespace translation as a function of the base transition relation; TLC action property BpConfines: nothing outside B changes); TLC-generated (path string, call, history with Chdir) transitions replayed through the real BasePathFS with the WHOLE base projected; returned strings and error fields scanned for the base path; TLC trace validation with the deviation operator KF31",
                 text="The specification interprets every path in the virtual namespace rooted at B (absolute paths cleaned with '..' clamped at the virtual root, relative paths taken from the virtual working directory) and gives the call the outcome and effect of the translated call on the base - i.e. the standalone reference file system of the property. TLC checks that no transition changes anything outside B and emits all transitions for 125 path strings (absolute/relative, '.', '..', the base's own names) x 20 call templates, 1 (quick) / 2 (thorough) consecutive wrapper calls so that Chdir precedes the call. The driver runs them through basepathfs.New(base, /w/B) over MemFS and OrefaFS, comparing result, the projection of the whole base (inside and outside B) and Getwd, and flags any returned path or PathError/LinkError field that contains the base path.",
                 note="Relative paths are a known finding (KF31: handed to the base untranslated, panic when the call fails); the strict semantics stays the oracle, and edges whose source state is only reachable through the deviation are not explored further."),
+    "C11": dict(cat="model_checking", design="DESIGN.md section 8 C11",
+                technique="TLA+ Sub-view spec (Wrappers.tla: SubOutcomes = the parent's transition on dir+path under the view's own umask and working directory, view state separate from the parent's); TLC action property SubConfines; TLC-generated transitions replayed through real MemFS.Sub views with the PARENT's whole tree, working directory and umask observed after every call; TLC trace validation",
+                text="A view is a wrapper state [dir, vcwd, umask] over the shared inode table: a call through it has the outcome and effect of the parent's call on dir+Clean(path) evaluated with the view's umask, Chdir/SetUMask through the view change only the view. TLC checks that nothing outside dir changes and that the parent's umask, working directory and user are untouched, and emits every transition for the C10 path universe and call templates plus the setters, two consecutive calls through the view (so a setter or Chdir precedes every call), for a view at /w/B (quick) and also at /w and / (thorough, 574k transitions). The driver executes them through vfs.Sub(dir) of a real MemFS, projects the parent's complete tree and logs the parent's Getwd and UMask after each call.",
+                note="Symlink-free trees (the property's own restriction). Remove/RemoveAll/Rename of the view's own root are a recorded finding (KF32)."),
     "C12": dict(cat="model_checking", design="DESIGN.md section 8 C12",
                 technique="TLA+ FailFS spec (Wrappers.tla: every wrapper call as a sequence of consulted primitives over the base transition relation, fault plan + counters as wrapper state) with TLC action properties; TLC enumerates (base tree, plan, wrapper history, call) transitions; replay through the real FailFS with a counting failure function; the logged consultation sequence must equal the specification's; TLC trace validation",
                 text="Wrappers.tla gives each FailFS method its sequence of consulted FnVFS primitives (composites Create/WriteFile/ReadFile/ReadDir/MkdirTemp/CreateTemp/Sub+mutator step by step, with the partial effects that have happened when an inner primitive fails) as a function of the base transition relation. TLC checks that an injected failure is returned (exactly for single-primitive calls, some error for composites), that the base never changes under ReadOnlyFunc, and emits every transition for: no plan (transparency: results and tree equal the base's), ReadOnlyFunc, and every plan 'the 1st/2nd consultation of F fails' for 30 primitives. The driver executes them through failfs.New(base) on MemFS and OrefaFS bases; result, base projection, mtime digest (read-only plan) and the exact list of primitives consulted during the call are compared; non-conforming steps go to FsTrace in wrapper mode.",
